@@ -117,12 +117,15 @@ type Contract struct {
 	Safety     bool
 	NilCheck   bool
 	NoFrame    bool
+	PureFacts  map[string]bool // ... whose postconditions are attached to the uninterpreted applications
 	PureCalls  map[string]bool // callees treated as uninterpreted functions of their arguments in this unit
 	Inlines    map[string]bool // callees executed by their bodies in this unit although they have a contract
 	DivAbstract bool
+	NoSafety   bool // no implicit index/nil/div obligations in this unit (they are assumed to hold)
 	Scratch    []string // locations whose entry value must not influence the result (non-interference)
 	NoSplit    bool // do not split conjunctive goals into one obligation per conjunct
 	Asserts    []AssertAt
+	Cuts       []AssertAt // like Asserts, and the unit's assigns targets are havocked afterwards (the formula is re-assumed)
 	Ghosts     []GhostVar
 	GhostUpd   []GhostUpdate
 	Uses       []string
@@ -397,6 +400,13 @@ func (cs *ContractSet) parseFile(path string) {
 				continue
 			}
 			cur.Asserts = append(cur.Asserts, AssertAt{am[1], mk(am[2])})
+		case "cut":
+			am := regexp.MustCompile(`^at\s+(.*?)\s*::\s*(.*)$`).FindStringSubmatch(rest)
+			if am == nil {
+				cs.errf("%s: bad cut %q (syntax: cut at <anchor> :: <expr>)", loc, rest)
+				continue
+			}
+			cur.Cuts = append(cur.Cuts, AssertAt{am[1], mk(am[2])})
 		case "update":
 			um := regexp.MustCompile(`^at\s+(.*?)\s*::\s*(\w+)\s*=\s*(.*)$`).FindStringSubmatch(rest)
 			if um == nil {
@@ -411,13 +421,22 @@ func (cs *ContractSet) parseFile(path string) {
 		case "purecalls":
 			if cur.PureCalls == nil {
 				cur.PureCalls = map[string]bool{}
+				cur.PureFacts = map[string]bool{}
 			}
 			for _, a := range strings.Split(rest, ",") {
 				a = strings.TrimSpace(a)
+				facts := false
+				if strings.HasSuffix(a, " with facts") {
+					facts = true
+					a = strings.TrimSpace(strings.TrimSuffix(a, " with facts"))
+				}
 				if !strings.Contains(a, ".") || strings.HasPrefix(a, "(") {
 					a = pkg + "." + a
 				}
 				cur.PureCalls[a] = true
+				if facts {
+					cur.PureFacts[a] = true
+				}
 			}
 		case "inlines":
 			if cur.Inlines == nil {
@@ -432,6 +451,8 @@ func (cs *ContractSet) parseFile(path string) {
 			}
 		case "divabstract":
 			cur.DivAbstract = true
+		case "nosafety":
+			cur.NoSafety = true
 		case "scratch":
 			for _, a := range splitTop(rest, ',') {
 				cur.Scratch = append(cur.Scratch, strings.TrimSpace(a))
